@@ -187,7 +187,7 @@ def check_rule(ctx, ast, rng):
 
 def run_shard(ctx):
     r = ctx.sub_rng('c16', ctx.shard)
-    n = 240 if ctx.tier == 'quick' else 3000
+    n = 500 if ctx.tier == 'quick' else 4000
     T = X.templates() + X.systematic_templates()
     for k in range(n):
         ast = X.gen_rule(r, unbalanced=(k % 3 == 2))
